@@ -16,7 +16,7 @@ PROPS = {
         ],
     },
     "C01": {
-        "theorems": ["SV.Props.C01.nonce_run", "SV.Props.C01.nonce_run_select", "SV.Props.C01.reachable_lists_sorted"],
+        "theorems": ["SV.Props.C01.nonce_run_of_every_reachable_pool", "SV.Props.C01.nonce_run", "SV.Props.C01.nonce_run_select", "SV.Props.C01.reachable_lists_sorted"],
         "modules": ["SV.Props.C01"],
         "runs": [{"component": "txcache", "thorough_seeds": 3, "compare_kinds": ["selb"]}],
         "rule": "random add/rm/clear/sel histories over a small transaction alphabet (hash determines content) under boundary-biased configurations; distinct = distinct (operation kind, canonical output incl. full API dump) pairs observed on the implementation",
@@ -26,7 +26,7 @@ PROPS = {
         ],
     },
     "C02": {
-        "theorems": ["SV.Props.C02.distinct_members", "SV.Props.C02.count_bound", "SV.Props.C02.gas_sum_and_budget", "SV.Props.C02.no_bad_guard", "SV.Props.C02.balances_cover", "SV.Props.C02.current_does_not_wrap", "SV.Props.C02.legacy_gas_counterexample"],
+        "theorems": ["SV.Props.C02.constraints_of_every_reachable_pool", "SV.Props.C02.distinct_members", "SV.Props.C02.count_bound", "SV.Props.C02.gas_sum_and_budget", "SV.Props.C02.no_bad_guard", "SV.Props.C02.balances_cover", "SV.Props.C02.current_does_not_wrap", "SV.Props.C02.legacy_gas_counterexample"],
         "modules": ["SV.Props.C02"],
         "runs": [{"component": "txcache", "thorough_seeds": 3, "compare_kinds": ["selb"]}],
         "rule": "random add/rm/clear/sel histories over a small transaction alphabet (hash determines content) under boundary-biased configurations; distinct = distinct (operation kind, canonical output incl. full API dump) pairs observed on the implementation",
@@ -36,7 +36,7 @@ PROPS = {
         ],
     },
     "C03": {
-        "theorems": ["SV.Props.C03.ppu_is_floor", "SV.Props.C03.comparator_strict_total", "SV.Props.C03.pops_the_best", "SV.Props.C03.order_independent", "SV.Props.C03.stricter_limits_give_prefix", "SV.Props.C03.equals_documented_greedy_procedure", "SV.Props.C03.container_heap_refines_extract_best", "SV.Props.C03.repeatable", "SV.Props.C03.legacy_ppu_truncates"],
+        "theorems": ["SV.Props.C03.greedy_on_every_reachable_pool", "SV.Props.C03.ppu_is_floor", "SV.Props.C03.comparator_strict_total", "SV.Props.C03.pops_the_best", "SV.Props.C03.order_independent", "SV.Props.C03.stricter_limits_give_prefix", "SV.Props.C03.equals_documented_greedy_procedure", "SV.Props.C03.container_heap_refines_extract_best", "SV.Props.C03.repeatable", "SV.Props.C03.legacy_ppu_truncates"],
         "modules": ["SV.Props.C03"],
         "runs": [{"component": "txcache", "thorough_seeds": 3, "compare_kinds": ["selb"]}],
         "rule": "random add/rm/clear/sel histories over a small transaction alphabet (hash determines content) under boundary-biased configurations; distinct = distinct (operation kind, canonical output incl. full API dump) pairs observed on the implementation",
@@ -46,7 +46,7 @@ PROPS = {
         ],
     },
     "C04": {
-        "theorems": ["SV.Props.C04.insert_is_ordered_insert", "SV.Props.C04.lists_sorted_add", "SV.Props.C04.lists_sorted_remove", "SV.Props.C04.sorted_has_no_duplicates", "SV.Props.C04.add_semantics", "SV.Props.C04.add_leaves_other_senders", "SV.Props.C04.remove_semantics", "SV.Props.C04.lookups_agree", "SV.Props.C04.trim_partial", "SV.Props.C04.trim_incomplete_F3"],
+        "theorems": ["SV.Props.C04.lists_equal_reference_after_any_history", "SV.Props.C04.hash_index_equals_reference_after_any_history", "SV.Props.C04.insert_is_ordered_insert", "SV.Props.C04.lists_sorted_add", "SV.Props.C04.lists_sorted_remove", "SV.Props.C04.sorted_has_no_duplicates", "SV.Props.C04.add_semantics", "SV.Props.C04.add_leaves_other_senders", "SV.Props.C04.remove_semantics", "SV.Props.C04.lookups_agree", "SV.Props.C04.trim_partial", "SV.Props.C04.trim_incomplete_F3"],
         "modules": ["SV.Props.C04"],
         "runs": [{"component": "txcache", "thorough_seeds": 3, "compare_kinds": ["add", "rm", "clear"], "history_filter": "evict=0"}],
         "rule": "random add/rm/clear/sel histories over a small transaction alphabet (hash determines content) under boundary-biased configurations; distinct = distinct (operation kind, canonical output incl. full API dump) pairs observed on the implementation",
@@ -159,7 +159,7 @@ PROPS = {
         "assumptions": ["the all-schedules theorem is about the block-interleaving model (critical sections as atomic blocks, block structure tied to the source by regenerated facts and by forced schedules); Go memory-model races inside a block, fairness and goleveldb's internal concurrency are outside the model", "porcupine (linearizability checker) is a search aid for failing inputs, not a proof"],
     },
     "C10": {
-        "theorems": ["SV.Props.C10.every_write_is_synced", "SV.Props.C10.put_db_atomic", "SV.Props.C10.remove_db_atomic", "SV.Props.C10.flush_db", "SV.Props.C10.crash_during_flushing_put", "SV.Props.C10.crash_during_non_flushing_put", "SV.Props.C10.flushed_state_is_the_map", "SV.Props.C10.at_risk_bounded", "SV.Props.C10.invariant_put", "SV.Props.C10.invariant_remove"],
+        "theorems": ["SV.Props.C10.crash_recovers_a_flush_boundary", "SV.Props.C10.acknowledged_write_flushed_within", "SV.Props.C10.timer_and_close_are_boundaries", "SV.Props.C10.lost_updates_are_bounded", "SV.Props.C10.driver_judgement_sound", "SV.Props.C10.driver_judgement_complete", "SV.Props.C10.every_write_is_synced", "SV.Props.C10.put_db_atomic", "SV.Props.C10.remove_db_atomic", "SV.Props.C10.flush_db", "SV.Props.C10.crash_during_flushing_put", "SV.Props.C10.crash_during_non_flushing_put", "SV.Props.C10.flushed_state_is_the_map", "SV.Props.C10.at_risk_bounded", "SV.Props.C10.invariant_put", "SV.Props.C10.invariant_remove"],
         "modules": ["SV.Props.C10"],
         "runs": [{"component": "crash", "thorough_seeds": 2}],
         "rule": "workloads of Put/Remove/tick/Close/reopen on leveldb.DB and SerialDB (batch sizes 1-5) over a recording goleveldb storage; at EVERY storage event (create/write/sync/setmeta/remove/rename) during a call and at every operation boundary crash images are materialised (unsynced tail none / torn at a random byte / all), reopened with the unmodified constructors and dumped by RangeKeys; the Lean model decides whether each recovered map is an allowed flush boundary; distinct = distinct (operation kind, output) pairs",
